@@ -181,9 +181,9 @@ CHECKS = {
               "kind/perm/bytes and everything the FS lists is in the store. non-trivial = >=3 faults fired in a history with >=1 mutating step"),
         assumptions=["one failing store call per run", "the plain store is lazy (Data/ReadDirNames evaluated on first use) like examples/s3, which cannot be built offline"],
         legs=[
-            dict(name="plain", run="^TestPlain$", quick=150, thorough=1500, shards=6),
-            dict(name="reject", run="^TestReject$", quick=150, thorough=1500, shards=6),
-            dict(name="locking", run="^TestLocking$", quick=150, thorough=1500, shards=6),
+            dict(name="plain", run="^TestPlain$", quick=150, thorough=1500, shards=6, quick_shards=6),
+            dict(name="reject", run="^TestReject$", quick=150, thorough=1500, shards=6, quick_shards=6),
+            dict(name="locking", run="^TestLocking$", quick=150, thorough=1500, shards=6, quick_shards=6),
         ],
     ),
     "C10": dict(
@@ -204,8 +204,8 @@ CHECKS = {
               "non-trivial = >=2 faults fired in a case; every concurrent case"),
         assumptions=["waiters blocked on the per-path sync.Mutex cannot be observed directly: the harness sleeps a drawn settle time before releasing the paused copy (affects which schedule is explored, never the verdict)"],
         legs=[
-            dict(name="faults", run="^TestFaults$", quick=120, thorough=1200, shards=4),
-            dict(name="concurrent", run="^TestConcurrent$", quick=60, thorough=600, shards=4),
+            dict(name="faults", run="^TestFaults$", quick=120, thorough=1200, shards=4, quick_shards=4),
+            dict(name="concurrent", run="^TestConcurrent$", quick=150, thorough=600, shards=8, quick_shards=8),
             dict(name="concurrent-race", run="^TestConcurrent$", thorough=150, shards=1, race=True, tiers=("thorough",), env={"VERIF_LEG_SUFFIX": "-race"}),
         ],
     ),
